@@ -35,6 +35,7 @@ def check(run):
     run.attempt(ordersrc, run, p, cd)
     run.attempt(typelevels, run, p)
     run.attempt(rowsafter, run, p, cd)
+    run.attempt(poslookup, run, p)
     nocache_rule(run, 'C05-NOCACHE', p, ['tdda.referencetest.checkpandas', 'tdda.referencetest.basecomparison'],
                  'frames handed to a comparison are never memoised: no caching decorator and no class-level container used as a cache in the '
                  'comparison modules (check_dataframe sorts its inputs in place, so a shared cached frame would change under later checks)')
@@ -227,6 +228,49 @@ def rfail(run, p, cd):
     run.ob('C05-RFAIL', '%s::%s::return' % (cd.rel, cd.short), any(c_ == 0 for c_ in quiet) or not quiet,
            '%d paths report nothing; a zero failure count is reachable among them: %s' % (len(quiet), any(c_ == 0 for c_ in quiet)), fn=cd, nontrivial=False)
     run.floor('C05-RFAIL', n, 5)
+
+
+def poslookup(run, p):
+    run.rule('C05-POSLOOKUP', 'a value is fetched from a filtered column by position only when positions are what its labels are: in the '
+                              'DataFrame comparison module, N[<integer literal>] on a name bound to rows selected from a frame or column '
+                              '(dropna(), F[mask]) is a *label* lookup in pandas; the selection keeps the original labels, so the '
+                              'binding must renumber them (reset_index) or leave pandas (.values / .tolist() / list()), or the lookup '
+                              'must be .iloc - otherwise the first surviving row is not at label 0 (KeyError, or another row\'s value)')
+    m = p.mod('tdda.referencetest.checkpandas')
+    n = 0
+    for f in p.funcs.values():
+        if f.mod is not m:
+            continue
+        nodes = list(p.own_nodes(f))
+        binds = {}
+        for x in nodes:
+            if isinstance(x, ast.Assign) and len(x.targets) == 1 and isinstance(x.targets[0], ast.Name):
+                binds.setdefault(x.targets[0].id, []).append(x.value)
+        for x in nodes:
+            if isinstance(x, ast.Subscript) and isinstance(x.value, ast.Attribute) and x.value.attr in ('iloc', 'iat') and isinstance(x.value.value, ast.Name) \
+                    and x.value.value.id in binds and isinstance(x.slice, ast.Constant):
+                n += 1
+                run.ob('C05-POSLOOKUP', '%s::%s::%s' % (f.rel, f.short, norm(x)), True, '%s is a lookup by position' % norm(x), fn=f, node=x)
+                continue
+            if not (isinstance(x, ast.Subscript) and isinstance(x.value, ast.Name) and isinstance(x.slice, ast.Constant)
+                    and isinstance(x.slice.value, int) and not isinstance(x.slice.value, bool) and isinstance(x.ctx, ast.Load)):
+                continue
+            for e in binds.get(x.value.id, ()):
+                filtered = any((isinstance(y, ast.Call) and isinstance(y.func, ast.Attribute) and y.func.attr == 'dropna') or
+                               (isinstance(y, ast.Subscript) and any(isinstance(z, ast.Compare) or (isinstance(z, ast.Call) and isinstance(z.func, ast.Attribute)
+                                                                                                     and z.func.attr in ('notnull', 'isnull', 'notna', 'isna', 'isin'))
+                                                                     for z in ast.walk(y.slice)))
+                               for y in ast.walk(e))
+                if not filtered:
+                    continue
+                n += 1
+                renumbered = any((isinstance(y, ast.Attribute) and y.attr in ('reset_index', 'values', 'tolist', 'to_numpy', 'to_list', 'iloc', 'array')) or
+                                 (isinstance(y, ast.Call) and getattr(y.func, 'id', '') in ('list', 'tuple'))
+                                 for y in ast.walk(e))
+                run.ob('C05-POSLOOKUP', '%s::%s::%s' % (f.rel, f.short, norm(x)), renumbered,
+                       '%s with %s = %s: %s' % (norm(x), x.value.id, norm(e)[:60], 'the selection is renumbered before the lookup' if renumbered else
+                                                'the selection keeps the labels of the rows that survive, so label %d need not be among them' % x.slice.value), fn=f, node=x)
+    run.floor('C05-POSLOOKUP', n, 1)
 
 
 def state(run, p, pc):
